@@ -13,8 +13,10 @@ Tie to the current source, every run:
       exactly representable) — per-box hashes, bisection on mismatch.  Out-parameters
       left behind by a `false` result are unspecified by the property: differences
       there are counted in chk.extra as an observation, not an obligation;
-  (b) the same outputs vs the SPEC oracle (exact interval intersection in Rat,
-      written independently of the model): hit booleans, entry/exit/ip when hit;
+  (b) the same outputs vs the SPEC oracle (exact interval intersection, Model/RayBoxOracle.lean, written
+      independently of the model and PROVED to decide `exists t, pos+t*dir in box` / `exists t >= 0` and to report
+      the first / last parameter: oracleLine_iff, oracleRay_iff, spec_entry, spec_exit, spec_ip; the driver executes
+      those very definitions at Rat): hit booleans, entry/exit/ip when hit;
   (a') deterministic NON-DYADIC direction lattice: directions {0,+-1,+-3,+-5,+-7}^3\\{0} x integer origins
       in [-4,4]^3 (thorough [-5,5]^3, more boxes, plus a seeded translation) x cube / slab / flat /
       single-point boxes, so that edge/corner grazing (tFrontMax == tBackMin exactly, the same
@@ -23,7 +25,7 @@ Tie to the current source, every run:
       equality and order), and every specified output vs the MODEL EXECUTED AT Float/Float32 in the
       same operation order, BIT FOR BIT (catches d*(1/dir) for d/dir and similar rewrites);
   (c) float guard sweep (residue, measured): direction components in
-      {0, +-1, +-denorm_min, +-1e-30, +-1e30, +-max/2}, origins below/on/inside/on/above
+      {+0, -0, +-1, +-denorm_min, +-1e-30, +-1e30, +-max/2}, origins below/on/inside/on/above
       each slab; blocks: FIRST the deterministic ones (fixed ordinary box, half-infinite box with a
       face at numeric_limits::max, box/origin at opposite extremes so that face-pos overflows,
       off-centre box, Box::makeInfinite), then VERIF_SEED-dependent ones (ordinary, half-infinite;
@@ -67,7 +69,8 @@ REQUIRED = ["findEntryAndExitPoints_empty", "intersects_empty",
             "intersects_ip_in_box_always", "findEntryAndExitPoints_points_in_box",
             "findEntryAndExitPoints_unwritten", "findEntryAndExitPoints_unwritten_zero_dir",
             "intersects_false_hit_only_if", "findEntryAndExitPoints_false_hit_only_if",
-            "findEntryAndExitPoints_unwritten_witness"]
+            "findEntryAndExitPoints_unwritten_witness",
+            "oracleLine_iff", "oracleRay_iff", "spec_feHit_iff", "spec_isHit_iff", "spec_entry", "spec_exit", "spec_ip"]
 
 # per-axis (min,max) pairs; boxes = pairs^3.  (1,0) is inverted (empty box), (a,a) flat.
 QUICK_PAIRS = "-1:1,0:2,1:1,1:0,-1:0"
@@ -644,7 +647,9 @@ def run(chk):
     chk.trusted = ["Lean 4.33 kernel; axioms propext, Classical.choice, Quot.sound at most",
                    "hand model Model/RayBox.lean, tied to ImathBoxAlgo.h by exhaustive lattice correspondence "
                    "(harness/corr/raybox_corr.cpp vs lean/Driver/RayBox.lean), results and points-when-true compared exactly",
-                   "spec oracle in Driver/RayBox.lean (exact interval intersection over Rat), written independently of the model",
+                   "spec oracle Model/RayBoxOracle.lean (exact interval intersection, written independently of the model): the driver "
+                   "executes at core Rat exactly the generic definitions PROVED correct over any ordered field (oracleLine_iff, "
+                   "oracleRay_iff, spec_entry/exit/ip); trusted is only that core Rat arithmetic is the field arithmetic of Q",
                    "Lean's Float / Float32 operations are the machine's IEEE binary64 / binary32 operations (the sweep tie and the "
                    "non-dyadic lattice compare the model executed at Float with the real code bit for bit)",
                    "the wrapper scalar `Small` in raybox_corr.cpp (a double with numeric_limits<Small>::max() == 4) through which the "
@@ -657,8 +662,8 @@ def run(chk):
                 "that are true.  Non-dyadic lattice: directions {0,+-1,+-3,+-5,+-7}^3 minus 0, integer origins/boxes, deterministic; "
                 "model executed at Float/Float32 and compared bit for bit; reported points measured against the exact points.  "
                 "Small-T lattice: real templates at a scalar with max() = 4, 6 boxes x origins {-6..5}^3 x directions {0,+-1/8,+-1/2,+-1,+-2}^3, "
-                "exact; non-trivial = true results; all 18 guard-fail arms have obliged hit counts.  Guard sweep: 11^3 extreme directions "
-                "(zero direction included) x <=125 origins x boxes; non-trivial = robust exact answers (oracle part), cases with a failing "
+                "exact; non-trivial = true results; all 18 guard-fail arms have obliged hit counts.  Guard sweep: 12^3 extreme directions "
+                "(+0 and -0 components, the zero directions included) x <=125 origins x boxes; non-trivial = robust exact answers (oracle part), cases with a failing "
                 "guard (model@Float tie part); per-class counts of the deterministic blocks pinned")
     okd, out = build_driver()
     chk.oblige("build:drv_raybox", "build", okd, None if okd else out[-800:])
@@ -755,118 +760,118 @@ def _pins():
 PINNED = {
  "double": {
   "fixed-halfinfinite": {
-   "findEntryAndExitPoints:hit-to-miss:all-components-fail-guard:t-gt-TMAX": 2,
-   "findEntryAndExitPoints:hit-to-miss:box-face-at-TMAX:t-le-TMAX": 20,
-   "intersects:miss-to-hit:all-components-fail-guard": 64,
-   "intersects:miss-to-hit:box-face-at-TMAX": 160,
-   "reported-points:findEntryAndExitPoints:entry-never-written:all-components-fail-guard": 702,
-   "reported-points:findEntryAndExitPoints:entry-never-written:box-face-at-TMAX": 972,
-   "reported-points:findEntryAndExitPoints:entry-never-written:zero-direction": 27,
-   "reported-points:findEntryAndExitPoints:exit-never-written:all-components-fail-guard": 702,
-   "reported-points:findEntryAndExitPoints:exit-never-written:box-face-at-TMAX": 972,
-   "reported-points:findEntryAndExitPoints:exit-never-written:zero-direction": 27
+   "findEntryAndExitPoints:hit-to-miss:all-components-fail-guard:t-gt-TMAX": 8,
+   "findEntryAndExitPoints:hit-to-miss:box-face-at-TMAX:t-le-TMAX": 40,
+   "intersects:miss-to-hit:all-components-fail-guard": 88,
+   "intersects:miss-to-hit:box-face-at-TMAX": 208,
+   "reported-points:findEntryAndExitPoints:entry-never-written:all-components-fail-guard": 1512,
+   "reported-points:findEntryAndExitPoints:entry-never-written:box-face-at-TMAX": 1728,
+   "reported-points:findEntryAndExitPoints:entry-never-written:zero-direction": 216,
+   "reported-points:findEntryAndExitPoints:exit-never-written:all-components-fail-guard": 1512,
+   "reported-points:findEntryAndExitPoints:exit-never-written:box-face-at-TMAX": 1728,
+   "reported-points:findEntryAndExitPoints:exit-never-written:zero-direction": 216
   },
   "fixed-huge": {
-   "findEntryAndExitPoints:hit-to-miss:all-components-fail-guard:t-gt-TMAX": 60,
-   "intersects:miss-to-hit:all-components-fail-guard": 228,
-   "reported-points:findEntryAndExitPoints:entry-never-written:all-components-fail-guard": 702,
-   "reported-points:findEntryAndExitPoints:entry-never-written:zero-direction": 27,
-   "reported-points:findEntryAndExitPoints:exit-never-written:all-components-fail-guard": 702,
-   "reported-points:findEntryAndExitPoints:exit-never-written:zero-direction": 27
+   "findEntryAndExitPoints:hit-to-miss:all-components-fail-guard:t-gt-TMAX": 128,
+   "intersects:miss-to-hit:all-components-fail-guard": 336,
+   "reported-points:findEntryAndExitPoints:entry-never-written:all-components-fail-guard": 1512,
+   "reported-points:findEntryAndExitPoints:entry-never-written:zero-direction": 216,
+   "reported-points:findEntryAndExitPoints:exit-never-written:all-components-fail-guard": 1512,
+   "reported-points:findEntryAndExitPoints:exit-never-written:zero-direction": 216
   },
   "fixed-infinite": {
-   "reported-points:findEntryAndExitPoints:entry-never-written:all-components-fail-guard": 702,
-   "reported-points:findEntryAndExitPoints:entry-never-written:box-face-at-TMAX": 604,
-   "reported-points:findEntryAndExitPoints:entry-never-written:face-minus-pos-overflows": 14292,
-   "reported-points:findEntryAndExitPoints:entry-never-written:zero-direction": 27,
-   "reported-points:findEntryAndExitPoints:exit-never-written:all-components-fail-guard": 702,
-   "reported-points:findEntryAndExitPoints:exit-never-written:box-face-at-TMAX": 604,
-   "reported-points:findEntryAndExitPoints:exit-never-written:face-minus-pos-overflows": 14292,
-   "reported-points:findEntryAndExitPoints:exit-never-written:zero-direction": 27
+   "reported-points:findEntryAndExitPoints:entry-never-written:all-components-fail-guard": 1512,
+   "reported-points:findEntryAndExitPoints:entry-never-written:box-face-at-TMAX": 1216,
+   "reported-points:findEntryAndExitPoints:entry-never-written:face-minus-pos-overflows": 19008,
+   "reported-points:findEntryAndExitPoints:entry-never-written:zero-direction": 216,
+   "reported-points:findEntryAndExitPoints:exit-never-written:all-components-fail-guard": 1512,
+   "reported-points:findEntryAndExitPoints:exit-never-written:box-face-at-TMAX": 1216,
+   "reported-points:findEntryAndExitPoints:exit-never-written:face-minus-pos-overflows": 19008,
+   "reported-points:findEntryAndExitPoints:exit-never-written:zero-direction": 216
   },
   "fixed-offcentre": {
-   "findEntryAndExitPoints:hit-to-miss:all-components-fail-guard:t-gt-TMAX": 52,
-   "intersects:miss-to-hit:all-components-fail-guard": 168,
-   "reported-points:findEntryAndExitPoints:entry-never-written:all-components-fail-guard": 702,
-   "reported-points:findEntryAndExitPoints:entry-never-written:zero-direction": 27,
-   "reported-points:findEntryAndExitPoints:exit-never-written:all-components-fail-guard": 702,
-   "reported-points:findEntryAndExitPoints:exit-never-written:zero-direction": 27
+   "findEntryAndExitPoints:hit-to-miss:all-components-fail-guard:t-gt-TMAX": 112,
+   "intersects:miss-to-hit:all-components-fail-guard": 240,
+   "reported-points:findEntryAndExitPoints:entry-never-written:all-components-fail-guard": 1512,
+   "reported-points:findEntryAndExitPoints:entry-never-written:zero-direction": 216,
+   "reported-points:findEntryAndExitPoints:exit-never-written:all-components-fail-guard": 1512,
+   "reported-points:findEntryAndExitPoints:exit-never-written:zero-direction": 216
   },
   "fixed-ordinary": {
-   "findEntryAndExitPoints:hit-to-miss:all-components-fail-guard:t-gt-TMAX": 76,
-   "intersects:miss-to-hit:all-components-fail-guard": 188,
-   "reported-points:findEntryAndExitPoints:entry-never-written:all-components-fail-guard": 702,
-   "reported-points:findEntryAndExitPoints:entry-never-written:zero-direction": 27,
-   "reported-points:findEntryAndExitPoints:exit-never-written:all-components-fail-guard": 702,
-   "reported-points:findEntryAndExitPoints:exit-never-written:zero-direction": 27
+   "findEntryAndExitPoints:hit-to-miss:all-components-fail-guard:t-gt-TMAX": 144,
+   "intersects:miss-to-hit:all-components-fail-guard": 272,
+   "reported-points:findEntryAndExitPoints:entry-never-written:all-components-fail-guard": 1512,
+   "reported-points:findEntryAndExitPoints:entry-never-written:zero-direction": 216,
+   "reported-points:findEntryAndExitPoints:exit-never-written:all-components-fail-guard": 1512,
+   "reported-points:findEntryAndExitPoints:exit-never-written:zero-direction": 216
   },
   "fixed-overflow": {
-   "findEntryAndExitPoints:hit-to-miss:all-components-fail-guard:t-gt-TMAX": 4,
-   "findEntryAndExitPoints:hit-to-miss:face-minus-pos-overflows": 118,
-   "findEntryAndExitPoints:miss-to-hit:face-minus-pos-overflows": 6,
-   "intersects:hit-to-miss:face-minus-pos-overflows": 39,
-   "intersects:miss-to-hit:all-components-fail-guard": 22,
-   "intersects:miss-to-hit:face-minus-pos-overflows": 37,
-   "reported-points:findEntryAndExitPoints:entry-never-written:face-minus-pos-overflows": 18,
-   "reported-points:findEntryAndExitPoints:exit-never-written:face-minus-pos-overflows": 18
+   "findEntryAndExitPoints:hit-to-miss:all-components-fail-guard:t-gt-TMAX": 16,
+   "findEntryAndExitPoints:hit-to-miss:face-minus-pos-overflows": 196,
+   "findEntryAndExitPoints:miss-to-hit:face-minus-pos-overflows": 8,
+   "intersects:hit-to-miss:face-minus-pos-overflows": 58,
+   "intersects:miss-to-hit:all-components-fail-guard": 32,
+   "intersects:miss-to-hit:face-minus-pos-overflows": 52,
+   "reported-points:findEntryAndExitPoints:entry-never-written:face-minus-pos-overflows": 32,
+   "reported-points:findEntryAndExitPoints:exit-never-written:face-minus-pos-overflows": 32
   }
  },
  "float": {
   "fixed-halfinfinite": {
-   "findEntryAndExitPoints:hit-to-miss:all-components-fail-guard:t-gt-TMAX": 2,
-   "findEntryAndExitPoints:hit-to-miss:box-face-at-TMAX:t-le-TMAX": 20,
-   "intersects:miss-to-hit:all-components-fail-guard": 64,
-   "intersects:miss-to-hit:box-face-at-TMAX": 160,
-   "reported-points:findEntryAndExitPoints:entry-never-written:all-components-fail-guard": 702,
-   "reported-points:findEntryAndExitPoints:entry-never-written:box-face-at-TMAX": 972,
-   "reported-points:findEntryAndExitPoints:entry-never-written:zero-direction": 27,
-   "reported-points:findEntryAndExitPoints:exit-never-written:all-components-fail-guard": 702,
-   "reported-points:findEntryAndExitPoints:exit-never-written:box-face-at-TMAX": 972,
-   "reported-points:findEntryAndExitPoints:exit-never-written:zero-direction": 27
+   "findEntryAndExitPoints:hit-to-miss:all-components-fail-guard:t-gt-TMAX": 8,
+   "findEntryAndExitPoints:hit-to-miss:box-face-at-TMAX:t-le-TMAX": 40,
+   "intersects:miss-to-hit:all-components-fail-guard": 88,
+   "intersects:miss-to-hit:box-face-at-TMAX": 208,
+   "reported-points:findEntryAndExitPoints:entry-never-written:all-components-fail-guard": 1512,
+   "reported-points:findEntryAndExitPoints:entry-never-written:box-face-at-TMAX": 1728,
+   "reported-points:findEntryAndExitPoints:entry-never-written:zero-direction": 216,
+   "reported-points:findEntryAndExitPoints:exit-never-written:all-components-fail-guard": 1512,
+   "reported-points:findEntryAndExitPoints:exit-never-written:box-face-at-TMAX": 1728,
+   "reported-points:findEntryAndExitPoints:exit-never-written:zero-direction": 216
   },
   "fixed-huge": {
-   "findEntryAndExitPoints:hit-to-miss:all-components-fail-guard:t-gt-TMAX": 164,
-   "intersects:miss-to-hit:all-components-fail-guard": 768,
-   "reported-points:findEntryAndExitPoints:entry-never-written:all-components-fail-guard": 1998,
-   "reported-points:findEntryAndExitPoints:entry-never-written:zero-direction": 27,
-   "reported-points:findEntryAndExitPoints:exit-never-written:all-components-fail-guard": 1998,
-   "reported-points:findEntryAndExitPoints:exit-never-written:zero-direction": 27
+   "findEntryAndExitPoints:hit-to-miss:all-components-fail-guard:t-gt-TMAX": 304,
+   "intersects:miss-to-hit:all-components-fail-guard": 1056,
+   "reported-points:findEntryAndExitPoints:entry-never-written:all-components-fail-guard": 3672,
+   "reported-points:findEntryAndExitPoints:entry-never-written:zero-direction": 216,
+   "reported-points:findEntryAndExitPoints:exit-never-written:all-components-fail-guard": 3672,
+   "reported-points:findEntryAndExitPoints:exit-never-written:zero-direction": 216
   },
   "fixed-infinite": {
-   "reported-points:findEntryAndExitPoints:entry-never-written:all-components-fail-guard": 702,
-   "reported-points:findEntryAndExitPoints:entry-never-written:box-face-at-TMAX": 604,
-   "reported-points:findEntryAndExitPoints:entry-never-written:face-minus-pos-overflows": 14292,
-   "reported-points:findEntryAndExitPoints:entry-never-written:zero-direction": 27,
-   "reported-points:findEntryAndExitPoints:exit-never-written:all-components-fail-guard": 702,
-   "reported-points:findEntryAndExitPoints:exit-never-written:box-face-at-TMAX": 604,
-   "reported-points:findEntryAndExitPoints:exit-never-written:face-minus-pos-overflows": 14292,
-   "reported-points:findEntryAndExitPoints:exit-never-written:zero-direction": 27
+   "reported-points:findEntryAndExitPoints:entry-never-written:all-components-fail-guard": 1512,
+   "reported-points:findEntryAndExitPoints:entry-never-written:box-face-at-TMAX": 1216,
+   "reported-points:findEntryAndExitPoints:entry-never-written:face-minus-pos-overflows": 19008,
+   "reported-points:findEntryAndExitPoints:entry-never-written:zero-direction": 216,
+   "reported-points:findEntryAndExitPoints:exit-never-written:all-components-fail-guard": 1512,
+   "reported-points:findEntryAndExitPoints:exit-never-written:box-face-at-TMAX": 1216,
+   "reported-points:findEntryAndExitPoints:exit-never-written:face-minus-pos-overflows": 19008,
+   "reported-points:findEntryAndExitPoints:exit-never-written:zero-direction": 216
   },
   "fixed-offcentre": {
-   "findEntryAndExitPoints:hit-to-miss:all-components-fail-guard:t-gt-TMAX": 52,
-   "intersects:miss-to-hit:all-components-fail-guard": 168,
-   "reported-points:findEntryAndExitPoints:entry-never-written:all-components-fail-guard": 702,
-   "reported-points:findEntryAndExitPoints:entry-never-written:zero-direction": 27,
-   "reported-points:findEntryAndExitPoints:exit-never-written:all-components-fail-guard": 702,
-   "reported-points:findEntryAndExitPoints:exit-never-written:zero-direction": 27
+   "findEntryAndExitPoints:hit-to-miss:all-components-fail-guard:t-gt-TMAX": 112,
+   "intersects:miss-to-hit:all-components-fail-guard": 240,
+   "reported-points:findEntryAndExitPoints:entry-never-written:all-components-fail-guard": 1512,
+   "reported-points:findEntryAndExitPoints:entry-never-written:zero-direction": 216,
+   "reported-points:findEntryAndExitPoints:exit-never-written:all-components-fail-guard": 1512,
+   "reported-points:findEntryAndExitPoints:exit-never-written:zero-direction": 216
   },
   "fixed-ordinary": {
-   "findEntryAndExitPoints:hit-to-miss:all-components-fail-guard:t-gt-TMAX": 76,
-   "intersects:miss-to-hit:all-components-fail-guard": 188,
-   "reported-points:findEntryAndExitPoints:entry-never-written:all-components-fail-guard": 702,
-   "reported-points:findEntryAndExitPoints:entry-never-written:zero-direction": 27,
-   "reported-points:findEntryAndExitPoints:exit-never-written:all-components-fail-guard": 702,
-   "reported-points:findEntryAndExitPoints:exit-never-written:zero-direction": 27
+   "findEntryAndExitPoints:hit-to-miss:all-components-fail-guard:t-gt-TMAX": 144,
+   "intersects:miss-to-hit:all-components-fail-guard": 272,
+   "reported-points:findEntryAndExitPoints:entry-never-written:all-components-fail-guard": 1512,
+   "reported-points:findEntryAndExitPoints:entry-never-written:zero-direction": 216,
+   "reported-points:findEntryAndExitPoints:exit-never-written:all-components-fail-guard": 1512,
+   "reported-points:findEntryAndExitPoints:exit-never-written:zero-direction": 216
   },
   "fixed-overflow": {
-   "findEntryAndExitPoints:hit-to-miss:all-components-fail-guard:t-gt-TMAX": 4,
-   "findEntryAndExitPoints:hit-to-miss:face-minus-pos-overflows": 150,
-   "findEntryAndExitPoints:miss-to-hit:face-minus-pos-overflows": 12,
-   "intersects:hit-to-miss:face-minus-pos-overflows": 55,
-   "intersects:miss-to-hit:all-components-fail-guard": 22,
-   "intersects:miss-to-hit:face-minus-pos-overflows": 40,
-   "reported-points:findEntryAndExitPoints:entry-never-written:face-minus-pos-overflows": 18,
-   "reported-points:findEntryAndExitPoints:exit-never-written:face-minus-pos-overflows": 18
+   "findEntryAndExitPoints:hit-to-miss:all-components-fail-guard:t-gt-TMAX": 16,
+   "findEntryAndExitPoints:hit-to-miss:face-minus-pos-overflows": 236,
+   "findEntryAndExitPoints:miss-to-hit:face-minus-pos-overflows": 16,
+   "intersects:hit-to-miss:face-minus-pos-overflows": 78,
+   "intersects:miss-to-hit:all-components-fail-guard": 32,
+   "intersects:miss-to-hit:face-minus-pos-overflows": 56,
+   "reported-points:findEntryAndExitPoints:entry-never-written:face-minus-pos-overflows": 32,
+   "reported-points:findEntryAndExitPoints:exit-never-written:face-minus-pos-overflows": 32
   }
  }
 }
